@@ -369,11 +369,20 @@ func newEng(prop string, cfg *tcfg, res *tres, dir string) *teng {
 	if cfg.Persistent {
 		e.path = filepath.Join(dir, "tree-"+strconv.Itoa(os.Getpid())+".db")
 	}
-	want := []string{"buffer", "data", "nextPage", "freePage", "stats"}
-	got := z.VerifTreeFields()
-	if strings.Join(got, ",") != strings.Join(want, ",") {
-		e.noClone = true
-		res.Note += fmt.Sprintf("z.Tree fields are %v (expected %v): exact restore disabled, every successor is replayed from scratch. ", got, want)
+	if extra, plain := z.VerifTreeExtraFields(); len(extra) > 0 {
+		if plain {
+			if !strings.Contains(res.Note, "unknown plain-data") {
+				res.Note += fmt.Sprintf("z.Tree has unknown plain-data fields %v: they are snapshotted, restored, cloned and hashed as opaque bytes together with the known state. ", extra)
+			}
+		} else {
+			e.noClone = true
+			res.Note += fmt.Sprintf("z.Tree has unknown fields %v that are not plain data: exact restore and clone probes disabled, every successor is replayed from scratch. ", extra)
+		}
+	}
+	for _, f := range []string{"buffer", "data", "nextPage", "freePage", "stats"} {
+		if !strings.Contains(","+strings.Join(z.VerifTreeFields(), ",")+",", ","+f+",") {
+			ev.Fatalf("z.Tree no longer has the field %q the white-box export reads", f)
+		}
 	}
 	return e
 }
@@ -453,6 +462,9 @@ func thash(m z.VerifTreeMeta, used []byte) [2]uint64 {
 	mix(uint64(m.Stats.Allocated) ^ uint64(m.Stats.Bytes)<<16 ^ uint64(m.Stats.NumPages)<<32 ^ uint64(m.Stats.PageSize)<<48 ^ math.Float64bits(m.Stats.Occupancy))
 	mix(uint64(m.DataLen))
 	mix(uint64(m.BufLen))
+	for i := 0; i < len(m.Extra); i++ {
+		mix(uint64(m.Extra[i]) + uint64(i)<<8)
+	}
 	for _, w := range z.BytesToUint64Slice(used) {
 		mix(w)
 	}
@@ -1227,7 +1239,7 @@ func (e *teng) search() {
 						continue
 					}
 					m, u, key := e.curKey()
-					if !cfg.Persistent && op.kind == tSet && m.NextPage > sm.NextPage && m.NextPage-sm.NextPage < 16 {
+					if !cfg.Persistent && !e.noClone && op.kind == tSet && m.NextPage > sm.NextPage && m.NextPage-sm.NextPage < 16 {
 						_, dup := seen[key]
 						if !dup { // the same (state, op) is never probed twice; equal successor => equal probe
 							pm, pk := m, key
@@ -1241,7 +1253,7 @@ func (e *teng) search() {
 							}
 						}
 					}
-					if !cfg.Persistent && op.kind == tReset && key != emptyKey {
+					if !cfg.Persistent && !e.noClone && op.kind == tReset && key != emptyKey {
 						if _, dup := seen[key]; !dup {
 							s.refillProbe(id, op, m, u)
 						}
@@ -1351,12 +1363,17 @@ type tlong struct {
 	N          int    `json:"keys"`         // number of Set operations
 	Vals       string `json:"value_scheme"` // index: v = insertion index+1 ; hash: v = 1 + top 10 bits of k*phi
 	DelEvery   int    `json:"deletebelow_every,omitempty"`
-	Reopen     string `json:"reopen,omitempty"`    // "" | every-change | at (C16 only)
-	ReopenAt   int    `json:"reopen_at,omitempty"` // for "at": after this many operations
+	// ResetThen != "": after the fill, Reset, then a second fill of N keys in this pattern with the
+	// other value scheme (so every key gets a different value and the pages are built in another order).
+	ResetThen string `json:"reset_then_refill_pattern,omitempty"`
+	Reopen    string `json:"reopen,omitempty"`    // "" | every-change | at (C16 only)
+	ReopenAt  int    `json:"reopen_at,omitempty"` // for "at": after this many operations
 }
 
-func (l *tlong) key(i int) uint64 {
-	switch l.Pattern {
+func (l *tlong) key(i int) uint64 { return l.keyOf(l.Pattern, i) }
+
+func (l *tlong) keyOf(pattern string, i int) uint64 {
+	switch pattern {
 	case "seq":
 		return uint64(i) + 1
 	case "rev":
@@ -1366,12 +1383,14 @@ func (l *tlong) key(i int) uint64 {
 	case "high":
 		return maxU - 1 - uint64(i)
 	}
-	ev.Fatalf("unknown key pattern %q", l.Pattern)
+	ev.Fatalf("unknown key pattern %q", pattern)
 	return 0
 }
 
-func (l *tlong) val(i int, k uint64) uint64 {
-	if l.Vals == "hash" {
+func (l *tlong) val(i int, k uint64) uint64 { return l.valOf(l.Vals, i, k) }
+
+func (l *tlong) valOf(scheme string, i int, k uint64) uint64 {
+	if scheme == "hash" {
 		return (k*0x9E3779B97F4A7C15)>>54 + 1
 	}
 	return uint64(i) + 1
@@ -1395,6 +1414,20 @@ func (l *tlong) ops() []top {
 			out = append(out, top{kind: tDel, v: ts})
 		}
 	}
+	if l.ResetThen != "" {
+		out = append(out, top{kind: tReset})
+		vs := "hash"
+		if l.Vals == "hash" {
+			vs = "index"
+		}
+		for i := 0; i < l.N; i++ {
+			k := l.keyOf(l.ResetThen, i)
+			out = append(out, top{kind: tSet, k: k, v: l.valOf(vs, i, k) + 1000000})
+			if l.DelEvery > 0 && (i+1)%l.DelEvery == 0 && vs == "hash" {
+				out = append(out, top{kind: tDel, v: 1000512})
+			}
+		}
+	}
 	out = append(out, top{kind: tIter, fn: fnEvenInc}, top{kind: tDel, v: maxU},
 		top{kind: tSet, k: l.key(0), v: 7}, top{kind: tSet, k: l.key(l.N - 1), v: maxU})
 	return out
@@ -1404,6 +1437,18 @@ func (l *tlong) allKeys() []uint64 {
 	ks := make([]uint64, 0, l.N+4)
 	for i := 0; i < l.N; i++ {
 		ks = append(ks, l.key(i))
+	}
+	if l.ResetThen != "" {
+		have := make(map[uint64]bool, l.N)
+		for _, k := range ks {
+			have[k] = true
+		}
+		for i := 0; i < l.N; i++ {
+			if k := l.keyOf(l.ResetThen, i); !have[k] {
+				have[k] = true
+				ks = append(ks, k)
+			}
+		}
 	}
 	// never-set probes
 	for _, p := range []uint64{uint64(l.N) + 1, uint64(l.N) + 2, 1 << 63, maxU - 2 - uint64(l.N)} {
@@ -1453,8 +1498,8 @@ func c10Long(l *tlong, dir string) *tres {
 				if pan != nil {
 					d = fmt.Sprintf("panic: %.160v", pan)
 				}
-				return fmt.Sprintf("long history %s (page size %d, %d keys %s, values %s, DeleteBelow every %d): after operation #%d %s: %s",
-					l.Name, l.PageSize, l.N, l.Pattern, l.Vals, l.DelEvery, i, ops[i], d), treplay{Mode: "long", PageSize: l.PageSize, Persistent: l.Persistent, Long: l}
+				return fmt.Sprintf("long history %s (page size %d, %d keys %s, values %s, DeleteBelow every %d, then Reset + refill %q): after operation #%d %s: %s",
+					l.Name, l.PageSize, l.N, l.Pattern, l.Vals, l.DelEvery, l.ResetThen, i, ops[i], d), treplay{Mode: "long", PageSize: l.PageSize, Persistent: l.Persistent, Long: l}
 			})
 		}
 	}
@@ -1886,6 +1931,25 @@ func c10Jobs(tier, dir string) (jobs []*tjob) {
 					PageSize: ps, Pattern: pat, N: n + 1, Vals: vs, DelEvery: n / 3}})
 			}
 		}
+	}
+	// fill past the first growth of the backing buffer (1 MiB), Reset, refill past it again in another
+	// order with other values: whatever Reset leaves behind beyond what it hands back is met again
+	refill := func(ps, keys int, p1, p2, vs string, del int) {
+		jobs = append(jobs, &tjob{Prop: "C10", Dir: dir, Long: &tlong{Name: fmt.Sprintf("long-ps%d-%s-%s-reset-%s", ps, p1, vs, p2),
+			PageSize: ps, Pattern: p1, N: keys + 1, Vals: vs, DelEvery: del, ResetThen: p2}})
+	}
+	refill(4096, 45000, "stride", "seq", "hash", 0)
+	refill(4096, 45000, "seq", "stride", "index", 0)
+	refill(4096, 45000, "rev", "seq", "index", 15000)
+	refill(80, 20000, "stride", "rev", "hash", 0)
+	refill(80, 20000, "seq", "seq", "index", 0)
+	if th {
+		refill(4096, 70000, "stride", "rev", "index", 0)
+		refill(4096, 45000, "high", "stride", "hash", 15000)
+		refill(256, 45000, "stride", "seq", "hash", 0)
+		refill(256, 45000, "seq", "rev", "index", 15000)
+		refill(96, 25000, "stride", "seq", "hash", 0)
+		refill(112, 30000, "rev", "stride", "index", 10000)
 	}
 	for _, ps := range []int{256, 4096} {
 		jobs = append(jobs, &tjob{Prop: "C10", Dir: dir, Long: &tlong{Name: fmt.Sprintf("long-file-ps%d-seq-index", ps),
